@@ -268,8 +268,14 @@ def make_texts(r, m, n=3, accept=None):
 RUNS_PER_UNIVERSE = 6
 
 
+def scale_of(tier, index, rpu):
+    """Deeper bounds in the thorough tier: every third universe group gets histories twice as long and up to six clients."""
+    return 2 if (tier == 'thorough' and (index // rpu) % 3 == 2) else 1
+
+
 class Planner:
-    def __init__(self, seed, useed=None, prop='C18', universe_fn=None, kinds_pool=None, runs_per_universe=None):
+    def __init__(self, seed, useed=None, prop='C18', universe_fn=None, kinds_pool=None, runs_per_universe=None, scale=1):
+        self.scale = scale          # thorough tier: every third universe group runs longer histories with more clients
         self.kinds_pool = kinds_pool or KINDS
         self.rpu = runs_per_universe or RUNS_PER_UNIVERSE
         self.prop = prop
@@ -511,7 +517,7 @@ class Planner:
             n_clients = 1
         else:
             kinds = [k for k in self.kinds_pool if fr.random() < (0.9 if k == 'preempt' else 0.7)]
-            n_clients = wr.choice([1, 2, 2, 2, 3, 3, 3, 4])
+            n_clients = wr.choice([1, 2, 2, 2, 3, 3, 3, 4] if self.scale == 1 else [2, 3, 3, 4, 4, 5, 6])
         hot = wr.choice(sorted(self.infos))
         # "constants of the application": some texts of the hot module are one object for every client
         ht = self.infos[hot].texts
@@ -524,11 +530,11 @@ class Planner:
         extended_by = {}
         for ci in range(n_clients):
             ops = []
-            n_ops = wr.randint(1, 6)
+            n_ops = wr.randint(1, 6 * self.scale)
             for _ in range(n_ops):
                 x = wr.random()
                 live = sorted(self.infos)
-                if 'compile' in kinds and x < 0.12 and next_id < 12:
+                if 'compile' in kinds and x < 0.12 and next_id < 12 * self.scale:
                     forbidden = set()
                     for cj, names in extended_by.items():
                         if cj != ci:
